@@ -96,7 +96,8 @@ uint_t arch_tzcnt(dig_t a) {
 	};
 #endif
 #if WSIZE == 8
-	if (a >> 4 != 0) {
+	/* Look at the low nibble first. */
+	if ((a & 0xF) != 0) {
 		return table[a & 0xF];
 	} else {
 		return table[a >> 4] + 4;
@@ -105,16 +106,16 @@ uint_t arch_tzcnt(dig_t a) {
 #elif WSIZE == 16
 	int offset;
 
-	if (a & 0xFF == 0) {
+	if ((a & 0xFF) == 0) {
 		offset = 8;
 	} else {
 		offset = 0;
 	}
 	a = a >> offset;
-	if (a >> 4 != 0) {
+	if ((a & 0xF) != 0) {
 		return table[a & 0xF] + offset;
 	} else {
-		return table[a >> 4] + 4 + offset;
+		return table[(a >> 4) & 0xF] + 4 + offset;
 	}
 	return 0;
 #elif WSIZE == 32
